@@ -1,8 +1,10 @@
 package gofakes3
 
 import (
+	"bytes"
 	"encoding/hex"
 	"io"
+	"io/ioutil"
 	"time"
 
 	"github.com/aws/aws-sdk-go/aws/awserr"
@@ -344,7 +346,18 @@ func CopyObject(db Backend, srcBucket, srcKey, dstBucket, dstKey string, meta ma
 	}
 	defer c.Contents.Close()
 
-	_, err = db.PutObject(dstBucket, dstKey, meta, c.Contents, c.Size)
+	var contents io.Reader = c.Contents
+	if srcBucket == dstBucket && srcKey == dstKey {
+		// A backend that streams into the destination would truncate the
+		// object before it has been read when it is copied onto itself.
+		body, err := ioutil.ReadAll(c.Contents)
+		if err != nil {
+			return result, err
+		}
+		contents = bytes.NewReader(body)
+	}
+
+	_, err = db.PutObject(dstBucket, dstKey, meta, contents, c.Size)
 	if err != nil {
 		return
 	}
